@@ -163,6 +163,7 @@ EarlierMM(nd, s) == LET a == nd.args IN
   THEN {o \in s.orders : o.app = a.app /\ o.pair = a.pair /\ o.owner = a.u /\ o.typ = "MM" /\ Live(o)} ELSE {}
 C07MMReplace(nd, s, s2) ==
   \A o \in EarlierMM(nd, s) : HasOrder(s2, o.app, o.pair, o.id) /\ OrderOf(s2, o.app, o.pair, o.id).status = "X"
+C07CancelAll(nd, s, s2) == nd.a = "CancelAll" /\ nd.res.ok => C07CancelAllEnds(s, s2, nd.args)
 (* the escrow covers every live claim once the recorded matching residue (amm family) is accounted for: *)
 (* any OTHER leak out of a pair escrow violates this even in runs that hit the known non-conserving match *)
 C07CoversNet(nd, s2) ==
@@ -171,7 +172,7 @@ C07CoversNet(nd, s2) ==
 
 Formulas == <<"Conf_Step", "Conf_SdkAgree", "Conf_Residue",
               "C04_GlobalEscrow", "C04_PairEscrow", "C04_FarmBacked", "C04_ZeroSupplyDisabled", "C04_SupplyOnlyByPoolOps",
-              "C07_OwnerLedger", "C07_Cancellable", "C07_MMReplace", "C07_EscrowCovers", "C07_EscrowCoversNet", "C07_NothingRemains">>
+              "C07_OwnerLedger", "C07_Cancellable", "C07_CancelAll", "C07_MMReplace", "C07_EscrowCovers", "C07_EscrowCoversNet", "C07_NothingRemains">>
 Holds(f, nd, pj, s, s2) ==
   LET step == nd.parent > 0 IN
   CASE f = "Conf_Step" -> (step => Conf(nd, s, s2))
@@ -184,6 +185,7 @@ Holds(f, nd, pj, s, s2) ==
     [] f = "C04_SupplyOnlyByPoolOps" -> (step => C04SupplyStep(s, s2))
     [] f = "C07_OwnerLedger" -> (step => C07Ledger(nd, s, s2))
     [] f = "C07_Cancellable" -> (step => C07Cancellable(nd, s, s2))
+    [] f = "C07_CancelAll" -> (step => C07CancelAll(nd, s, s2))
     [] f = "C07_MMReplace" -> (step => C07MMReplace(nd, s, s2))
     [] f = "C07_EscrowCovers" -> C07EscrowCovers(s2)
     [] f = "C07_EscrowCoversNet" -> C07CoversNet(nd, s2)
@@ -201,6 +203,12 @@ Flags(i) ==
   [ step |-> step, ok |-> step /\ nd.res.ok,
     placed |-> step /\ nd.a \in {"LimitOrder", "MarketOrder", "MMOrder"} /\ nd.res.ok,
     cancel |-> step /\ CancelAnte(nd, s),
+    cancelAll |-> step /\ nd.a = "CancelAll" /\ nd.res.ok /\ CancelAllTargets(s, nd.args) # {},
+    cancelAllMixed |-> step /\ nd.a = "CancelAll" /\ nd.res.ok /\ \E o \in CancelAllTargets(s, nd.args) :
+                          \E f \in s.orders : f.app = o.app /\ f.owner = o.owner /\ Live(f) /\ f.pair < o.pair /\ f.batch = PairOf(s, f.app, f.pair).batch
+                                                /\ (nd.args.pairs = <<>> \/ f.pair \in Range(nd.args.pairs)),
+    mmImproved |-> step /\ nd.a = "EndBlock" /\ \E o \in s2.orders : o.typ = "MM" /\ o.status = "C" /\ o.rem > 0 /\ Was(s, o)
+                          /\ \E x \in s2.orders : x.app = o.app /\ x.pair = o.pair /\ x.dir = o.dir /\ Live(x),
     mm |-> step /\ EarlierMM(nd, s) # {},
     mmDiff |-> step /\ EarlierMM(nd, s) # {} /\ nd.args.app # nd.args.pair,
     mmPartial |-> step /\ EarlierMM(nd, s) # {} /\ nd.args.app = nd.args.pair /\ \E o \in EarlierMM(nd, s) : o.status = "PM",
@@ -221,7 +229,7 @@ Flags(i) ==
     residue |-> nd.st.tainted ]
 FL == [i \in 1..NLog |-> Flags(i)]
 Cnt(f) == Cardinality({i \in 1..NLog : FL[i][f]})
-Stats == PrintT(<<"STATS", [k \in {"step", "ok", "placed", "cancel", "mm", "mmDiff", "mmPartial", "completed", "expired", "canceled", "partialEnd", "filled",
+Stats == PrintT(<<"STATS", [k \in {"step", "ok", "placed", "cancel", "cancelAll", "cancelAllMixed", "mmImproved", "mm", "mmDiff", "mmPartial", "completed", "expired", "canceled", "partialEnd", "filled",
                                    "emptied", "farmed", "activeFarm", "supply", "pending", "disabled", "zeroSupply", "activeUnfarm", "ledger", "residue"} |-> Cnt(k)]
                             @@ [nodes |-> NLog]>>)
 AllSeen == Stats /\ TLCGet("stats").distinct = NLog + NB + 1
